@@ -26,7 +26,10 @@
     callbacks (`OnAddComponents`) — every record a function of the ONE locked world `seenA` in
     which every table has been moved (repaired defects D8/D10 of the Go code).  Hypothesis: the
     lookup loop of the batch succeeds without removing a relation (`findLoop … = .ok (false, bts)
-    w10`; Ark/Proofs/BatchExchangeSpec.lean establishes it in the fragment).
+    w10`; Ark/Proofs/BatchExchangeSpec.lean establishes it in the fragment).  Since the repair of
+    defect D27 the lookup loop runs BEFORE the lock is taken; it neither reads nor writes the lock
+    (`frames_findLoop`), so the hypothesis is stated — as before — for the loop on the world with
+    the lock `l1` already taken, and `seenB`, `seenA` (what the callbacks see) are locked worlds.
 
   Not covered: batches with a callback function (`withFn`), relation batches (`setRelationsBatch`).
 -/
